@@ -1,6 +1,8 @@
 #!/bin/bash
-# tools/seedall.sh <ID> <n> [extra check ids...] : confirm seed /tmp/seed-<ID>/SEED/<n> and run the checks against it
+# tools/seedall.sh <ID> <n> [stored-name] [extra check ids...] : confirm seed /tmp/seed-<ID>/SEED/<n>, store it as
+# /verif/seeded/<stored-name> (default <id>-<n>) and run the property's check against it
 ID=$1; N=$2; shift 2
 name=$(echo "$ID" | tr A-Z a-z)-$N
+if [ $# -gt 0 ]; then name=$1; shift; fi
 /verif/tools/seedconfirm.sh $name /tmp/seed-$ID/SEED/$N
 /verif/tools/seedtest.sh $name /tmp/seed-$ID/SEED/$N/patch.diff $ID "$@"
